@@ -37,6 +37,13 @@ SNIPPETS = [
     ("def f(a):\n    x = y = a\n    return x, y", [(4,)]),
     ("def f(a):\n    (x,) = a\n    return x", [([7],), ([1, 2],)]),
     ("def f(a):\n    d = {}\n    d[a] = 1\n    return d", [(1,), ([1],)]),
+    # round 8: starred displays, lazy next() over a generator expression, bound dict.get, map()
+    ("def f(a, b):\n    return (*a, b, 1)", [([1, 2], 3), ([], 0), (5, 1)]),
+    ("def f(a):\n    return [*a, *a]", [([1],), ((2, 3),)]),
+    ("def f(a, k):\n    return next(x for x in a if x > k)", [([1, 5, 9], 3), ([1, 2], 7), ([], 0)]),
+    ("def f(d):\n    g = d.get\n    return g('a'), g('z'), g('z', 4)", [({"a": 1},)]),
+    ("def f(d):\n    return tuple(map(d.get, ('a', 'b', 'c')))", [({"a": 1, "c": 3},), ({},)]),
+    ("def f(a, b):\n    q, r = divmod(a, b)\n    return q, r", [(35, 16), (255, 16), (3, 0)]),
     # loops
     ("def f(n):\n    out = []\n    for i in range(n):\n        if i == 2:\n            continue\n        if i == 4:\n            break\n        out.append(i)\n    else:\n        out.append('done')\n    return out", [(3,), (6,), (0,)]),
     ("def f(n):\n    i = 0\n    while True:\n        i += 1\n        if i >= n:\n            break\n    return i", [(1,), (3,)]),
